@@ -307,6 +307,11 @@ def _verify_cases(argtuple):
     meta = []
     z3_ms = opts.get('z3_ms', 10000)
     cvc5_ms = opts.get('cvc5_ms', 10000)
+    copt = getattr(REGISTRY.get(qual), 'options', None) or {}
+    if copt.get('z3_share'):
+        # obligations over strings of unknown length: z3's sequence solver rarely decides them, cvc5 does - give z3 a small share
+        # of the budget first and cvc5 the rest (an unknown from both is retried with four times the budget anyway)
+        z3_ms = max(500, int(z3_ms * copt['z3_share']))
     for o in I.obligations:
         g = o.goal
         if isinstance(g, bool):
